@@ -61,7 +61,9 @@ def run(prog: Program, col: Collector, tier: str, refs: Optional[Refs] = None, c
         col.check(len(uses) == 1 and not bad_slice and not filt and uses_deep_type, f"{pc.fq}::{norm(ta)}",
                   "the type tuple is deep_type of every argument, in order", f"the type tuple `{norm(v)}` does not cover all arguments by deep_type", pc.loc(ta))
         # cache read / write keyed by the same name
-        cache_subs = [n for n in walk_no_nested(pc.node) if isinstance(n, ast.Subscript) and isinstance(n.value, ast.Attribute) and n.value.attr == "_cache"]
+        cache_subs = [n for n in walk_no_nested(pc.node) if isinstance(n, ast.Subscript) and isinstance(n.value, ast.Attribute) and isinstance(n.value.value, ast.Name)
+                      and n.value.value.id == pc.positional[0]]
+        _memo_invalidated(prog, col, pc, sorted({n.value.attr for n in cache_subs}))
         keys_ok = bool(cache_subs) and all(isinstance(s.slice, ast.Name) and s.slice.id == tname for s in cache_subs)
         redefs = [n for n in walk_no_nested(pc.node) if isinstance(n, ast.Name) and n.id == tname and isinstance(n.ctx, ast.Store)]
         col.check(keys_ok and len(redefs) == 1, f"{pc.fq}::cache key", "the dispatch cache is read and written under the same type tuple",
@@ -933,6 +935,49 @@ def _bare_candidate(prog: Program, col: Collector, refs: Refs, cat: Catalogue):
 
 
 # ---------------------------------------------------------------------- R16.12
+def _memo_invalidated(prog: Program, col: Collector, pc: Func, attrs):
+    """The memo of dispatch decisions must be dropped when a pattern is registered: otherwise a decision taken earlier (in particular
+    'no rule of this partial interpretation matches - fall through to the enclosing one') outlives the registration of a matching
+    rule, and which rule runs depends on what was dispatched before.  Either the memo is the `_cache` of multipledispatch's Dispatcher,
+    which Dispatcher.add() clears (checked in the installed library source), or the class's own add / register clears it."""
+    import importlib.util
+    import os
+    cls = pc.cls
+    for attr in attrs:
+        construct = f"{pc.fq}::self.{attr} invalidated on registration"
+        own = []
+        for mname in ("add", "register", "_add"):
+            m = cls.methods.get(mname) if cls is not None else None
+            if m is None:
+                continue
+            for x in ast.walk(m.node):
+                if isinstance(x, ast.Call) and isinstance(x.func, ast.Attribute) and x.func.attr == "clear" and norm(x.func.value) == f"{m.positional[0]}.{attr}":
+                    own.append(x)
+                if isinstance(x, ast.Assign) and any(norm(t) == f"{m.positional[0]}.{attr}" for t in x.targets):
+                    own.append(x)
+        if own:
+            col.ok(construct, f"`{attr}` is cleared by the class's own registration method", pc.loc())
+            continue
+        inherited = False
+        if attr == "_cache":
+            try:
+                spec = importlib.util.find_spec("multipledispatch.dispatcher")
+                src = open(spec.origin, encoding="utf-8").read() if spec and spec.origin and os.path.exists(spec.origin) else None
+            except Exception:
+                src = None
+            if src is None:
+                col.unresolved(construct, "source of multipledispatch.dispatcher not found: cannot confirm that Dispatcher.add clears _cache", pc.loc())
+                continue
+            tree = ast.parse(src)
+            for c in [n for n in tree.body if isinstance(n, ast.ClassDef) and n.name == "Dispatcher"]:
+                for m in [n for n in c.body if isinstance(n, ast.FunctionDef) and n.name == "add"]:
+                    if any(isinstance(x, ast.Call) and isinstance(x.func, ast.Attribute) and x.func.attr == "clear" and norm(x.func.value) == "self._cache" for x in ast.walk(m)):
+                        inherited = True
+        col.check(inherited, construct, "`_cache` is the memo of multipledispatch.Dispatcher, which Dispatcher.add() clears (installed source read)",
+                  f"dispatch decisions are memoised in `self.{attr}`, which no registration method clears: a decision taken before a rule is registered (e.g. 'no rule here, fall through "
+                  "to the enclosing interpretation') stays in force afterwards, so the rule that runs depends on earlier dispatches", pc.loc())
+
+
 def _per_class_state(prog: Program, col: Collector, refs: Refs, cat: Catalogue):
     """(a) A table a metaclass creates for each class (`cls._type_cache = WeakValueDictionary()`, `cls._instance_cache = ...`) must be
     created for the class itself: guarding the creation with hasattr / getattr, which also see inherited attributes, makes every
